@@ -56,6 +56,10 @@ func runReplayHarness(verif, repo, prop string, o *Obligation, rec map[string]in
 	mfile := filepath.Join(dir, "model.json")
 	os.WriteFile(mfile, mb, 0o644)
 	ov := map[string]map[string]string{"Replace": {filepath.Join(repo, rel, "zz_govc_replay_test.go"): tmpl}}
+	// an optional second file: the stored demonstration of a seeded change, which the harness file drives
+	if demo := filepath.Join(verif, "replay", short+".demo.go.tmpl"); fileExists(demo) {
+		ov["Replace"][filepath.Join(repo, rel, "zz_govc_demo_test.go")] = demo
+	}
 	ob, _ := json.Marshal(ov)
 	ovfile := filepath.Join(dir, "overlay.json")
 	os.WriteFile(ovfile, ob, 0o644)
@@ -83,3 +87,5 @@ func runReplayHarness(verif, repo, prop string, o *Obligation, rec map[string]in
 	rec["replay"] = map[string]interface{}{"harness": strings.TrimPrefix(tmpl, verif+"/"), "model_scalars": scalars, "command": "go test -overlay <harness as zz_govc_replay_test.go> -run TestGovcReplay " + target, "output": text}
 	return strings.Contains(string(out), "REPLAY-CONFIRMED") || strings.Contains(string(out), "WARNING: DATA RACE")
 }
+
+func fileExists(p string) bool { _, err := os.Stat(p); return err == nil }
